@@ -5,7 +5,9 @@ import (
 	"errors"
 	"fmt"
 	"io"
+	"math"
 	"reflect"
+	"strconv"
 	"time"
 
 	"github.com/osteele/liquid/parser"
@@ -110,6 +112,12 @@ func (n *TrimNode) render(w *trimWriter, _ nodeContext) Error {
 	}
 }
 
+// isWholeNumber reports whether f is a whole number that is written out in full
+// (fmt prints 1000000.0 as 1e+06 and 1234567.0 as 1.234567e+06).
+func isWholeNumber(f float64) bool {
+	return f == math.Trunc(f) && math.Abs(f) < 1e21
+}
+
 // writeObject writes a value used in an object node
 func writeObject(w io.Writer, value any) error {
 	value = values.ToLiquid(value)
@@ -120,6 +128,16 @@ func writeObject(w io.Writer, value any) error {
 	case time.Time:
 		_, err := io.WriteString(w, value.Format("2006-01-02 15:04:05 -0700"))
 		return err
+	case float32:
+		if isWholeNumber(float64(value)) {
+			_, err := io.WriteString(w, strconv.FormatFloat(float64(value), 'f', -1, 32))
+			return err
+		}
+	case float64:
+		if isWholeNumber(value) {
+			_, err := io.WriteString(w, strconv.FormatFloat(value, 'f', -1, 64))
+			return err
+		}
 	case []byte:
 		_, err := w.Write(value)
 		return err
